@@ -108,15 +108,32 @@ def gen_case(rng, tier):
 
 
 class RecDict(dict):
-    """dict that records every `__getitem__` key (hit or miss), installed as `sf.costs`."""
+    """dict that records every key it is asked about (`[]`, `in`, `get`, `[]=`; hit or miss), installed as
+    `sf.costs`; consecutive repetitions of a key are one access."""
 
     def __init__(self, *a):
         super().__init__(*a)
         self.log = []
 
+    def _rec(self, k):
+        if not self.log or self.log[-1] != k:
+            self.log.append(k)
+
     def __getitem__(self, k):
-        self.log.append(k)
+        self._rec(k)
         return super().__getitem__(k)
+
+    def __contains__(self, k):
+        self._rec(k)
+        return super().__contains__(k)
+
+    def get(self, k, default=None):
+        self._rec(k)
+        return super().get(k, default)
+
+    def __setitem__(self, k, v):
+        self._rec(k)
+        super().__setitem__(k, v)
 
 
 def build_tree(case):
